@@ -7,7 +7,7 @@ from props import c02, c12, c17
 
 ID = "C06"
 LEVEL = "proof"
-THEOREMS = ["C06_finished_bases_consistent_partial", "C06_concatenations", "C06_finish_succeeds_on_consistent_records", "C06_designed_string_flows", "C06_designed_string_nonvacuous", "C06_fits_check_sound", "C06_loaded_designed_string_flows", "C06_compiled_component_designs", "C06_compiled_design_finishes", "C06_compiled_component_end_to_end", "C06_strand_flattening", "C06_struct_loaded_designed_string_flows", "C06_compiled_design_finishes_struct", "C06_compiled_component_end_to_end_struct", "C06_compiled_system_designs", "C06_record_names_distinct", "C06_compiled_design_finishes_unconditional", "C06_compiled_component_end_to_end_unconditional", "C06_system_design_finishes", "C06_compiled_system_end_to_end", "C06_system_record_names_distinct", "C06_compiled_system_end_to_end_unconditional", "C06_names_ok2b_sound", "C06_fixed_component_end_to_end", "C06_fixed_system_end_to_end", "C06_target_pairs_watson_crick", "C06_equal_ports_agree"]
+THEOREMS = ["C06_finished_bases_consistent_partial", "C06_concatenations", "C06_finish_succeeds_on_consistent_records", "C06_designed_string_flows", "C06_designed_string_nonvacuous", "C06_fits_check_sound", "C06_loaded_designed_string_flows", "C06_compiled_component_designs", "C06_compiled_design_finishes", "C06_compiled_component_end_to_end", "C06_strand_flattening", "C06_struct_loaded_designed_string_flows", "C06_compiled_design_finishes_struct", "C06_compiled_component_end_to_end_struct", "C06_compiled_system_designs", "C06_record_names_distinct", "C06_compiled_design_finishes_unconditional", "C06_compiled_component_end_to_end_unconditional", "C06_system_design_finishes", "C06_compiled_system_end_to_end", "C06_system_record_names_distinct", "C06_compiled_system_end_to_end_unconditional", "C06_names_ok2b_sound", "C06_fixed_component_end_to_end", "C06_fixed_system_end_to_end", "C06_target_pairs_watson_crick", "C06_equal_ports_agree", "C06_finished_lists_structures_and_strands"]
 TRUSTED = c17.TRUSTED + ["stub NUPACK `mfe` executable (answers the all-unpaired structure) so that pepper-design-spurious can run; plain gcc build of spuriousSSM for the CLI leg"]
 ASSUMPTIONS = ["assignments are produced by the harness filler (random choice per class representative) and, in the CLI leg, by the real spuriousSSM with imax=30"]
 
